@@ -10,6 +10,8 @@ from vmon import oracle as orc
 from vmon.checks.common import fail
 from vmon.model import SeqModel
 
+SCALE_EVERY = 121
+SCALE = True   # worker: every fortieth case is blown up by scale_case below
 PROP = "C04"
 MONITORS = ["seq_inv", "conv"]
 INSITU = {"k": ""}
@@ -52,6 +54,16 @@ def _small_spec(rng, start=None):
         spec["pad"] = rng.randrange(0, 120)
     return spec
 
+
+def scale_case(case, i):
+    """a pool member with several hundred messages; the history then adds events far behind the end, overwrites, edits..."""
+    sp = case["pool"][0]
+    sp["notes"] = gen.big_notes(i, n=[300, 450, 700][(i // 120) % 3], chans=(0, 1), pitches=(60, 61, 62), lmin=1, lmax=30, gap=(0, 20))
+    sp.pop("pad", None)
+    for op in case["history"]:
+        op["s"] = 0 if op["op"].startswith("add_abs") else op["s"]
+        if "t" in op and op["op"] in ("add_abs_cc", "add_abs_note"):
+            op["t"] = 5 + (op["t"] * 37) % 3000
 
 def make_case(rng, i, tier):
     alias = (i % 3 == 2)
